@@ -296,7 +296,7 @@ class Facts:
                 self.bind.setdefault(name, []).append(("val", n))
         # alias classes (union-find over names)
         self._up: dict[str, str] = {}
-        for v, bs in self.bind.items():
+        for v, bs in list(self.bind.items()):
             if v in self.params or len(bs) != 1 or bs[0][0] != "val":
                 continue
             a = self.alias_name(bs[0][1])
